@@ -35,6 +35,29 @@ func judge(fr *FuncResult) (failed []*Obligation) {
 			coverAny[b] = true
 		}
 	}
+	// return sites: a site that is unreachable under the precondition is dead code, not vacuity;
+	// only a function none of whose return sites is reachable is reported
+	anyRet := false
+	nRet := 0
+	for b, ok := range coverAny {
+		_ = ok
+		if strings.HasPrefix(b, "cover:ret") {
+			anyRet = true
+		}
+	}
+	for b := range coverSeen {
+		if strings.HasPrefix(b, "cover:ret") {
+			nRet++
+		}
+	}
+	if anyRet {
+		for b := range coverSeen {
+			if strings.HasPrefix(b, "cover:ret") {
+				coverAny[b] = true
+			}
+		}
+	}
+	_ = nRet
 	for _, ob := range fr.Obs {
 		if ob.Cover {
 			ob.OK = coverAny[baseName(ob.Name)]
